@@ -125,26 +125,16 @@ static int cmd_vmreplay(int, char**) {
 }
 static th::Reg r1("vmreplay", cmd_vmreplay);
 
-// input: {"p":k,"files":..,"main":..,"seed":s,"calls":n,"may_diverge":bool,"style":"mixed|single|stepping"}
-// output: {"e":"load","p":k} then one event per call
-static int cmd_vmtrace(int, char**) {
-  signal(SIGALRM, on_alarm);
-  std::string line;
-  while (std::getline(std::cin, line)) {
-    if (line.empty()) continue;
-    json in = json::parse(line);
-    CodegenResult cr = compile(th::files_of(in), in.value("main", "m"));
-    if (!cr.generated_correctly) { th::emit({{"skip", in["p"]}}); continue; }
-    int p = in["p"].get<int>();
-    g_case = p;
-    std::mt19937 rng((unsigned)in.value("seed", 1));
-    int calls = in.value("calls", 100);
-    bool may_diverge = in.value("may_diverge", false);
-    std::string style = in.value("style", "mixed");
+
+// drive a fresh VM on cr.code with a seeded random history; one event per call through `out`
+static void drive_random(const CodegenResult& cr, int p, unsigned seed, int calls, bool may_diverge, const std::string& style,
+                         const std::function<void(const json&)>& out) {
+    std::mt19937 rng(seed);
     std::vector<BreakPoint> locs;
-    for (auto& b : cr.code.getAvailableBreakpoints()) locs.push_back(b);
+    Program prog = cr.code;
+    for (auto& b : prog.getAvailableBreakpoints()) locs.push_back(b);
     VM v(cr.code);
-    th::emit({{"e", "load"}, {"p", p}});
+    out({{"e", "load"}, {"p", p}});
     auto pick = [&](int n) { return (int)(rng() % (unsigned)n); };
     for (int c = 0; c < calls; c++) {
       int r = pick(100);
@@ -185,8 +175,24 @@ static int cmd_vmtrace(int, char**) {
       json o = observe(v, cr.code, ret);
       o.erase("data");
       for (auto& kv : o.items()) ev[kv.key()] = kv.value();
-      th::emit(ev);
+      out(ev);
     }
+}
+
+// input: {"p":k,"files":..,"main":..,"seed":s,"calls":n,"may_diverge":bool,"style":"mixed|single|stepping"}
+// output: {"e":"load","p":k} then one event per call
+static int cmd_vmtrace(int, char**) {
+  signal(SIGALRM, on_alarm);
+  std::string line;
+  while (std::getline(std::cin, line)) {
+    if (line.empty()) continue;
+    json in = json::parse(line);
+    CodegenResult cr = compile(th::files_of(in), in.value("main", "m"));
+    if (!cr.generated_correctly) { th::emit({{"skip", in["p"]}}); continue; }
+    int p = in["p"].get<int>();
+    g_case = p;
+    drive_random(cr, p, (unsigned)in.value("seed", 1), in.value("calls", 100), in.value("may_diverge", false),
+                 in.value("style", "mixed"), [](const json& ev) { th::emit(ev); });
   }
   return 0;
 }
@@ -239,3 +245,47 @@ static int cmd_steptrace(int, char**) {
   return 0;
 }
 static th::Reg r3("steptrace", cmd_steptrace);
+
+// sys: C18. T threads, each compiling inputs of a shared pool and driving private VM instances; every thread logs its own events
+// (per-thread sequence numbers); the log is printed when all threads have finished.
+// input : {"pool":[{"files":..,"main":..},..],"threads":T,"ops":N,"seed":s,"calls":c}
+// output: {"e":"compile","t":tid,"seq":n,"input":k,"digest":str,"ok":bool} and VM events (as vmtrace) tagged with "t","inst"
+#include <thread>
+#include <mutex>
+static int cmd_sys(int, char**) {
+  std::string line;
+  while (std::getline(std::cin, line)) {
+    if (line.empty()) continue;
+    json in = json::parse(line);
+    std::vector<std::pair<std::map<std::string, std::string>, std::string>> pool;
+    for (auto& x : in["pool"]) pool.push_back({th::files_of(x), x.value("main", "m")});
+    int T = in.value("threads", 4), ops = in.value("ops", 10), calls = in.value("calls", 60);
+    unsigned seed = in.value("seed", 1);
+    std::vector<std::vector<json>> logs(T);
+    std::vector<std::thread> ths;
+    for (int t = 0; t < T; t++) {
+      ths.emplace_back([&, t]() {
+        std::mt19937 rng(seed * 7919u + t);
+        int seq = 0;
+        for (int o = 0; o < ops; o++) {
+          int k = (int)(rng() % pool.size());
+          CodegenResult cr = compile(pool[k].first, pool[k].second);
+          logs[t].push_back({{"e", "compile"}, {"t", t}, {"seq", seq++}, {"input", k}, {"digest", th::digest_of(cr)}, {"ok", cr.generated_correctly}});
+          if (cr.generated_correctly && (rng() % 3) != 0) {
+            int inst = t * 1000 + o;
+            drive_random(cr, k + 1, (unsigned)rng(), calls, true, "mixed", [&](const json& ev) {
+              json e2 = ev; e2["t"] = t; e2["inst"] = inst; e2["seq"] = seq++;
+              logs[t].push_back(e2);
+            });
+          }
+          if (rng() % 4 == 0) std::this_thread::yield();
+        }
+      });
+    }
+    for (auto& th_ : ths) th_.join();
+    for (auto& l : logs) for (auto& e : l) th::emit(e);
+    th::emit({{"e", "done"}});
+  }
+  return 0;
+}
+static th::Reg r4("sys", cmd_sys);
